@@ -222,8 +222,7 @@ func rulePairDedup(w *World, r *Report, fn string) {
 			if !ok || !lk.CommaOk || found {
 				return
 			}
-			kp, ok := arrayLiteral(lk.Index)
-			if !ok || len(kp) != 2 || !equivValue(kp[0], pair[0]) || !equivValue(kp[1], pair[1]) {
+			if !samePairKey(w, f, lk.Index, pair) {
 				return
 			}
 			mm, ok := resolve(lk.X).(*ssa.MakeMap)
@@ -257,8 +256,7 @@ func rulePairDedup(w *World, r *Report, fn string) {
 					if !ok || resolve(mu.Map) != ssa.Value(mm) {
 						return
 					}
-					kk, ok := arrayLiteral(mu.Key)
-					if ok && len(kk) == 2 && equivValue(kk[0], pair[0]) && equivValue(kk[1], pair[1]) && (mu.Block() == fl || blockDominatedByEdge(f, blk, fl, mu.Block())) {
+					if samePairKey(w, f, mu.Key, pair) && (mu.Block() == fl || blockDominatedByEdge(f, blk, fl, mu.Block())) {
 						ins = true
 					}
 				})
@@ -300,9 +298,14 @@ func rulePairDedup(w *World, r *Report, fn string) {
 				}
 			}
 		}
-		if found {
+		switch {
+		case found:
 			r.add("DISTINCT-PAIR", key, w.Pos(c.Pos()), Discharged, "append guarded by miss-then-insert on the function-level map")
-		} else {
+		case why == "no map lookup with this pair as key guards the append" && guardedBySetTest(w, f, c):
+			// some membership test (a map lookup with a key in another representation, a set
+			// helper, slices.Contains) stands in front of the append: not read, no verdict
+			r.add("DISTINCT-PAIR", key, w.Pos(c.Pos()), Undecided, "the append is guarded by a membership test whose key was not recognised as this pair")
+		default:
 			r.add("DISTINCT-PAIR", key, w.Pos(c.Pos()), Violated, why)
 		}
 	})
@@ -1296,4 +1299,80 @@ func hasRangeValidation(w *World, f *ssa.Function, depth int, seen map[*ssa.Func
 		}
 	}
 	return false
+}
+
+// samePairKey: the map key is built from exactly the two components of the
+// pair (a [2]T literal, a struct literal with two fields, in either order).
+func samePairKey(w *World, f *ssa.Function, key ssa.Value, pair []ssa.Value) bool {
+	if len(pair) != 2 {
+		return false
+	}
+	parts, ok := arrayLiteral(key)
+	if !ok {
+		parts = elementParts(w, f, key)
+	}
+	if len(parts) != 2 {
+		return false
+	}
+	return (equivValue(parts[0], pair[0]) && equivValue(parts[1], pair[1])) || (equivValue(parts[0], pair[1]) && equivValue(parts[1], pair[0]))
+}
+
+// guardedBySetTest: a branch that dominates the append is decided by a map
+// lookup, or by a call that receives a map or a list (a set helper,
+// slices.Contains).
+func guardedBySetTest(w *World, f *ssa.Function, ap *ssa.Call) bool {
+	for _, blk := range f.Blocks {
+		t, fl, ifi := ifSuccs(blk)
+		if ifi == nil {
+			continue
+		}
+		dom := false
+		for _, s := range []*ssa.BasicBlock{t, fl} {
+			if s == ap.Block() || blockDominatedByEdge(f, blk, s, ap.Block()) {
+				dom = true
+			}
+		}
+		if !dom {
+			continue
+		}
+		c := resolve(ifi.Cond)
+		if u, ok := c.(*ssa.UnOp); ok && u.Op == token.NOT {
+			c = resolve(u.X)
+		}
+		switch y := c.(type) {
+		case *ssa.Lookup:
+			return true
+		case *ssa.Extract:
+			if _, ok := y.Tuple.(*ssa.Lookup); ok {
+				return true
+			}
+			if call, ok := y.Tuple.(*ssa.Call); ok {
+				for _, a := range call.Call.Args {
+					if isMap(a.Type()) || isSlice(a.Type()) {
+						return true
+					}
+				}
+			}
+		case *ssa.Call:
+			for _, a := range y.Call.Args {
+				if isMap(a.Type()) || isSlice(a.Type()) {
+					return true
+				}
+			}
+			if y.Call.IsInvoke() || (len(y.Call.Args) > 0 && (isMap(deref(y.Call.Args[0].Type())) || true)) {
+				// a method of a set type: p.newPairs(..), seen.add(k)
+				if g := calleeOf(y); g != nil && g.Signature.Recv() != nil {
+					return true
+				}
+			}
+		}
+	}
+	return false
+}
+
+func deref(t types.Type) types.Type {
+	if p, ok := t.Underlying().(*types.Pointer); ok {
+		return p.Elem()
+	}
+	return t
 }
